@@ -19,6 +19,10 @@ MAXLEN = int(sys.argv[1]) if len(sys.argv) > 1 and sys.argv[1].isdigit() else 4
 CUR = HandlerCollection.current
 
 
+class Cancelled(BaseException):
+    pass
+
+
 class Frame:
     """What proceed.__enter__ hands to the instrumented code: an object with `outer` and `inner`."""
 
@@ -40,6 +44,9 @@ def delegate_plain():
     except KeyError as e:
         LOG.append(("d-caught", type(e).__name__))
         yield "d-after-catch"
+    except Cancelled:
+        LOG.append("d-cancelled")
+        raise
     finally:
         LOG.append("d-finally")
     return "d-result"
@@ -120,7 +127,7 @@ def make(kind, mode, frame, seen):
     return g()
 
 
-OPS = ["next", "send", "throw-V", "throw-K", "close"]
+OPS = ["next", "send", "send-falsy", "throw-V", "throw-K", "throw-B", "close"]
 
 
 def drive(kind, mode, ops):
@@ -154,6 +161,12 @@ def drive(kind, mode, ops):
                 out = ("yielded", next(gen))
             elif op == "send":
                 out = ("yielded", gen.send(("sent", i)) if started else next(gen))
+            elif op == "send-falsy":
+                # a value that is false but is not None is a value like any other
+                out = ("yielded", gen.send([0, "", False, 0.0][i % 4]) if started else next(gen))
+            elif op == "throw-B":
+                # an exception that is not an Exception (KeyboardInterrupt, a cancellation) is forwarded to the delegate like any other
+                out = ("yielded", gen.throw(Cancelled("b")))
             elif op == "throw-V":
                 out = ("yielded", gen.throw(ValueError("v")))
             elif op == "throw-K":
